@@ -228,14 +228,17 @@ func runC07(c *Ctx) {
 				if callName(x) == interpPath+".TypeChecker.ValidateObjectAgainstTypeDef" {
 					validates = append(validates, x)
 				}
+				if callName(x) == interpPath+".TypeChecker.CheckType" && len(x.Call.Args) >= 3 && derivesFrom(x.Call.Args[2], func(v ssa.Value) bool { return loadedFromField(v, "Route", "InputType") }) {
+					validates = append(validates, x)
+				}
 			case *ssa.UnOp:
 				if loadedFromField(x, "Route", "InputType") {
 					inNil = append(inNil, x)
 				}
 			case *ssa.TypeAssert:
-				if x.CommaOk {
-					okFlags = append(okFlags, extractOf(x, 1)...)
-				}
+				// "the declared type is not a bare name" is not a reason to skip validation: that edge must lead
+				// to the general checker (CheckType), whose success edge is what allows the nil return
+				_ = x
 			case *ssa.Lookup:
 				if x.CommaOk {
 					okFlags = append(okFlags, extractOf(x, 1)...)
@@ -259,7 +262,7 @@ func runC07(c *Ctx) {
 				}
 			}
 			return false
-		})
+		}, "the compiled path's validator answers 'valid' on a path that neither found 'no input type declared' nor crossed the success edge of ValidateObjectAgainstTypeDef / CheckType(body, route.InputType): a declared input type of that shape (Item?, Item | Other, [Item]) is not enforced and the body runs on whatever arrived")
 		c.ob("C07-R2", fnKey(vi)+"#calls-validator", vi.Pos(), len(validates) > 0, "the compiled path's validator no longer calls ValidateObjectAgainstTypeDef")
 	}
 
@@ -353,7 +356,7 @@ func runC07(c *Ctx) {
 	}
 
 	// ---- R4 stage parity
-	c.rule("C07-R4", "TBL: the set of boundary stages reached by the compiled route handler (closure and its cmd/glyph helpers) equals the set reached by the interpreted path (executeRoute -> Interpreter.ExecuteRoute): ProcessQueryParams, ApplyTypeDefaults, ValidateObjectAgainstTypeDef, CheckType")
+	c.rule("C07-R4", "TBL: the set of boundary stages reached by the compiled route handler (closure and its cmd/glyph helpers) equals the set reached by the interpreted path (executeRoute -> Interpreter.ExecuteRoute): ProcessQueryParams, ApplyTypeDefaults, ValidateObjectAgainstTypeDef, CheckType of the declared input type, CheckType of the declared return type")
 	stages := []string{interpPath + ".ProcessQueryParams", interpPath + ".Interpreter.ApplyTypeDefaults", interpPath + ".TypeChecker.ValidateObjectAgainstTypeDef", interpPath + ".TypeChecker.CheckType"}
 	reached := func(root *ssa.Function, pkgs ...string) map[string]bool {
 		out := map[string]bool{}
@@ -372,6 +375,15 @@ func runC07(c *Ctx) {
 				for _, s := range stages {
 					if n == s {
 						out[s] = true
+					}
+				}
+				// CheckType is used for two different contracts: tell them apart by the type it is given
+				if n == interpPath+".TypeChecker.CheckType" && len(call.Common().Args) >= 3 {
+					delete(out, n)
+					for _, fld := range []string{"ReturnType", "InputType"} {
+						if derivesFrom(call.Common().Args[2], func(v ssa.Value) bool { return loadedFromField(v, "Route", fld) }) {
+							out[n+":"+fld] = true
+						}
 					}
 				}
 				if sf := staticFn(call); sf != nil && sf.Pkg != nil {
@@ -413,6 +425,7 @@ func runC07(c *Ctx) {
 			}
 		})
 	}
+	stages = append(stages[:len(stages)-1], interpPath+".TypeChecker.CheckType:InputType", interpPath+".TypeChecker.CheckType:ReturnType")
 	sort.Strings(stages)
 	for _, s := range stages {
 		if interp[s] {
